@@ -70,6 +70,7 @@ fn tree_ctx<'a>(rep: &'a mut Report, describe: &'a dyn Fn() -> (String, String),
         max_depth: s.chars().count() + 2,
         nodes: 0,
         leaves: 0,
+        depth_is_bound: false,
     }
 }
 
